@@ -1139,6 +1139,18 @@ class C05(Prop):
         evaluates = any(l.split()[0] in ("inject", "run", "injectco", "injectbe", "injectsafe", "injectsafefp") for l in lines if l.strip())
         if evaluates and "/c05/gen/t.c" not in srcs:
             return False
+        # generated files that the LPC sources themselves load (prep(), go()) must stay as well
+        import re
+        for l in lines:
+            f = l.split()
+            if len(f) >= 3 and f[0] == "src":
+                try:
+                    text = bytes.fromhex(f[2]).decode(errors="replace")
+                except ValueError:
+                    continue
+                for ref in set(re.findall(r'"(/c05/gen/\w+)"', text)):
+                    if ref + ".c" not in srcs:
+                        return False
         for l in lines:
             f = l.split()
             if len(f) == 3 and f[0] == "load" and f[2].startswith("/c05/gen/") and f[2] + ".c" not in srcs:
